@@ -5223,8 +5223,7 @@ xpath_string_length(struct lyxp_set **args, uint32_t arg_count, struct lyxp_set 
 static LY_ERR
 xpath_substring(struct lyxp_set **args, uint32_t arg_count, struct lyxp_set *set, uint32_t options)
 {
-    int64_t start;
-    int32_t len;
+    long double start, end;
     uint32_t str_start, str_len, pos;
     struct lysc_node_leaf *sleaf;
     LY_ERR rc = LY_SUCCESS;
@@ -5265,36 +5264,24 @@ xpath_substring(struct lyxp_set **args, uint32_t arg_count, struct lyxp_set *set
     if (xpath_round(&args[1], 1, args[1], options)) {
         return -1;
     }
-    if (isfinite(args[1]->val.num)) {
-        start = args[1]->val.num - 1;
-    } else if (isinf(args[1]->val.num) && signbit(args[1]->val.num)) {
-        start = INT32_MIN;
-    } else {
-        start = INT32_MAX;
-    }
+    start = args[1]->val.num;
 
     /* len */
     if (arg_count == 3) {
         rc = xpath_round(&args[2], 1, args[2], options);
         LY_CHECK_RET(rc);
-        if (isnan(args[2]->val.num) || signbit(args[2]->val.num)) {
-            len = 0;
-        } else if (isfinite(args[2]->val.num)) {
-            len = args[2]->val.num;
-        } else {
-            len = INT32_MAX;
-        }
+        end = start + args[2]->val.num;
     } else {
-        len = INT32_MAX;
+        end = INFINITY;
     }
 
-    /* find matching character positions */
+    /* find matching character positions (numbered from 1), none if start or end is NaN */
     str_start = 0;
     str_len = 0;
     for (pos = 0; args[0]->val.str[pos]; ++pos) {
-        if (pos < start) {
+        if (pos + 1 < start) {
             ++str_start;
-        } else if (pos < start + len) {
+        } else if ((pos + 1 >= start) && (pos + 1 < end)) {
             ++str_len;
         } else {
             break;
@@ -10038,7 +10025,8 @@ lyxp_set_cast(struct lyxp_set *set, enum lyxp_set_type target)
             } else if (isinf(set->val.num) && signbit(set->val.num)) {
                 set->val.str = strdup("-Infinity");
                 LY_CHECK_ERR_RET(!set->val.str, LOGMEM(set->ctx), -1);
-            } else if ((long long)set->val.num == set->val.num) {
+            } else if ((set->val.num >= -0x1p63L) && (set->val.num < 0x1p63L) &&
+                    ((long long)set->val.num == set->val.num)) {
                 if (asprintf(&str, "%lld", (long long)set->val.num) == -1) {
                     LOGMEM_RET(set->ctx);
                 }
